@@ -228,9 +228,10 @@ Definition dec_version_head (pver : N) (bs : bytes) : res ((Z * N * Z * netaddr 
   '(nonce, r) <- if_more r 0 (read_le 8) ;;
   Ok ((to_signed 32 pv, svc, to_signed 64 ts, you, me, nonce), r).
 
-Definition dec_user_agent (mmp : N) (bs : bytes) : res (bytes * bytes) :=
-  '(s, r) <- dec_varstring mmp bs ;;
-  if MaxUserAgentLen <? len s then Err EUALong else Ok (s, r).
+(* since fix ad1f9ac: ReadVarBytes(buf, pver, MaxUserAgentLen, "user agent") - the length is checked
+   before anything is allocated (before: ReadVarString bounded by maxMessagePayload, then
+   validateUserAgent) *)
+Definition dec_user_agent (bs : bytes) : res (bytes * bytes) := dec_varbytes MaxUserAgentLen bs.
 
 Definition dec_int32 (bs : bytes) : res (Z * bytes) :=
   '(v, r) <- read_le 4 bs ;; Ok (to_signed 32 v, r).
@@ -238,7 +239,7 @@ Definition dec_int32 (bs : bytes) : res (Z * bytes) :=
 Definition dec_version (pver mmp : N) (bs : bytes) : res (version * bytes) :=
   '(hd, r) <- dec_version_head pver bs ;;
   let '(pv, svc, ts, you, me, nonce) := hd in
-  '(ua, r) <- if_more r [] (dec_user_agent mmp) ;;
+  '(ua, r) <- if_more r [] dec_user_agent ;;
   '(lb, r) <- if_more r 0%Z dec_int32 ;;
   '(dr, r) <- (match r with [] => Ok (false, r) | b :: r' => Ok (b =? 0, r') end) ;;
   Ok (mk_ver pv svc ts you me nonce ua lb dr, r).
@@ -340,7 +341,7 @@ Definition alloc_payload (pver mmp : N) (k : kind) (bs : bytes) : N :=
   | KInv | KGetData | KNotFound => alloc_counted MaxInvPerMsg 36 bs
   | KVersion =>
     match dec_version_head pver bs with
-    | Ok (_, r) => match r with [] => 0 | _ :: _ => alloc_varstring mmp r end
+    | Ok (_, r) => match r with [] => 0 | _ :: _ => alloc_varstring MaxUserAgentLen r end
     | Err _ => 0
     end
   | KReject =>
@@ -357,7 +358,7 @@ Definition alloc_payload (pver mmp : N) (k : kind) (bs : bytes) : N :=
 Definition wf_version (pver mmp : N) (v : version) : bool :=
   sfits 32 (v_pver v) && fits 64 (v_svc v) && sfits 64 (v_ts v) &&
   wf_netaddr pver false (v_you v) && wf_netaddr pver false (v_me v) &&
-  fits 64 (v_nonce v) && (len (v_ua v) <=? MaxUserAgentLen) && (len (v_ua v) <=? mmp) &&
+  fits 64 (v_nonce v) && (len (v_ua v) <=? MaxUserAgentLen) &&
   sfits 32 (v_lastblock v) &&
   ((BIP0037Version <=? pver) || negb (v_disable_relay v)).
 
